@@ -165,6 +165,10 @@ structure State where
   cfg : Config
   quote : Bool
   send : Bool
+  /-- hidden environment: position in the random oracle stream (not part of `PushState`) -/
+  rng : Nat := 0
+  /-- hidden environment: value of the process-global node counter -/
+  nextId : Nat := 1
   deriving Inhabited
 
 end Pushr
